@@ -25,8 +25,8 @@ var e1Owners = map[string][]string{
 	"C10": {"handler-error", "spurious-error", "probe", "client-stuck"},
 	"C11": {"metadata", "metadata-wire"},
 	"C12": {"close-hang", "close-count", "close-leak", "close-later-op", "close-ctx", "serve-order", "panic", "fault-hang"},
-	"C13": {"panic", "byz-memory", "byz-hang"},
-	"C18": {"oldreader", "delivery", "completeness", "crosstalk", "probe", "handler-error", "spurious-error"},
+	"C13": {"panic", "byz-memory", "close-leak"},
+	"C18": {"oldreader", "metadata-wire", "delivery", "completeness", "crosstalk", "probe", "handler-error", "spurious-error"},
 }
 
 // delivery-class oracles are shared: C02 owns crosstalk, C01 owns the rest, C05
@@ -487,12 +487,22 @@ func (x *e1) checkHangs(phase string) {
 		return
 	}
 	// after an I/O fault or a close nothing may stay inside a call
-	if x.ioFired() {
-		x.viol("fault-hang", fmt.Sprintf("blocked-forever after transport fault calls=[%s]", describe(calls)),
+	relevant := calls
+	if x.serverBlind() {
+		relevant = nil
+		for _, c := range calls {
+			if !strings.HasPrefix(c.API, "h.") {
+				relevant = append(relevant, c)
+			}
+		}
+		x.res.probe("peer_close_unnoticed_behind_unread_message")
+	}
+	if x.ioFired() && len(relevant) > 0 {
+		x.viol("fault-hang", fmt.Sprintf("blocked-forever after transport fault calls=[%s]", describe(relevant)),
 			fmt.Sprintf("phase=%s census=%v lib=%v", phase, calls, x.libCensus()))
 	}
-	if x.closeStep > 0 || x.transportClosedByHarness() {
-		x.viol("close-hang", fmt.Sprintf("blocked-forever after close calls=[%s]", describe(calls)),
+	if (x.closeStep > 0 || x.transportClosedByHarness()) && len(relevant) > 0 {
+		x.viol("close-hang", fmt.Sprintf("blocked-forever after close calls=[%s]", describe(relevant)),
 			fmt.Sprintf("phase=%s census=%v lib=%v", phase, calls, x.libCensus()))
 	}
 	// peer side of a cancelled rpc: once everything is delivered the handler
@@ -537,6 +547,27 @@ func describeSet(cs []blockedCall) string {
 		m[apiVerb(c.API)+"@"+whereClass(c.Where)] = true
 	}
 	return strings.Join(sortedKeys(m), ",")
+}
+
+// serverBlind: the server's connection reader is parked handing a message to a
+// handler that does not receive, so it performs no transport read and cannot
+// notice that the peer went away (head-of-line blocking by design, DESIGN.md
+// D13). Expectations about the server side noticing a REMOTE close are waived
+// then; a fault or close on the server's own endpoint/objects still counts.
+func (x *e1) serverBlind() bool {
+	if x.whereRole("srv.manageReader") != "cond:Put" {
+		return false
+	}
+	// an error returned to one of the server's own transport calls is noticed
+	for _, f := range x.sep.Faults {
+		if f.Fired && f.Kind != "peer-close" {
+			return false
+		}
+	}
+	if _, ok := x.did["serve-cancel"]; ok {
+		return false
+	}
+	return true
 }
 
 func (x *e1) ioFired() bool {
@@ -874,7 +905,7 @@ func (x *e1) checkFaultContainment() {
 			x.viol(o, "client connection does not report closed after the transport failed or was closed", strings.Join(x.libCensus(), " "))
 		}
 	}
-	if !x.prog.Cfg.Serve && !x.serveDone {
+	if !x.prog.Cfg.Serve && !x.serveDone && !x.serverBlind() {
 		o := "fault-closed"
 		if !fault {
 			o = "close-hang"
@@ -893,7 +924,7 @@ func (x *e1) checkFaultContainment() {
 				x.viol("close-ctx", "client stream context not done although the connection is closed", fmt.Sprintf("rpc%d", r.Spec.Idx))
 			}
 		}
-		if r.H.st != nil && x.serveDone {
+		if r.H.st != nil && x.serveDone && !x.serverBlind() {
 			select {
 			case <-r.H.st.Context().Done():
 			default:
